@@ -364,6 +364,34 @@ impl Axecutor {
     }
 }
 
+// Observation points for the external verification harness (only with `--cfg ax_verif`)
+#[cfg(ax_verif)]
+impl Axecutor {
+    /// (brk_start, brk_length)
+    pub fn verif_brk(&self) -> (u64, u64) {
+        (self.state.syscalls.brk_start, self.state.syscalls.brk_length)
+    }
+
+    /// (write end -> read end) pairs and (read end -> buffered bytes) pairs of the built-in pipe handler
+    #[allow(clippy::type_complexity)]
+    pub fn verif_pipes(&self) -> (Vec<(u64, u64)>, Vec<(u64, Vec<u8>)>) {
+        (
+            self.state
+                .syscalls
+                .pipes_write_ends
+                .iter()
+                .map(|(k, v)| (*k, *v))
+                .collect(),
+            self.state
+                .syscalls
+                .pipe_contents
+                .iter()
+                .map(|(k, v)| (*k, v.clone()))
+                .collect(),
+        )
+    }
+}
+
 /*
 // TODO: Make this test pass
 #[cfg(test)]
